@@ -243,6 +243,17 @@ func (env *SpecEnv) localByName(name string) (Val, bool) {
 		v, ok := env.cur.cells[cellKey{fr.id, env.rangeAlloc}]
 		return v, ok
 	}
+	if name == "rangepos" && env.lp != nil {
+		// the byte position a range-over-string loop has reached (ghost cell of its iterator)
+		for _, ins := range env.lp.header.Instrs {
+			if nx, ok := ins.(*ssa.Next); ok && nx.IsString {
+				if r, ok := nx.Iter.(*ssa.Range); ok {
+					v, ok := env.cur.cells[cellKey{fr.id, env.ex.eng.hiddenAlloc(r)}]
+					return v, ok
+				}
+			}
+		}
+	}
 	var best, dead *ssa.Alloc
 	for _, b := range fr.fn.Blocks {
 		for _, ins := range b.Instrs {
@@ -843,6 +854,11 @@ func (env *SpecEnv) evalCall(n *Node) Val {
 		sg := env.eval(args[2])
 		ex.sc.fun("str_isnum", []string{sStr, sInt, sBool}, sBool)
 		return mathBool(app("str_isnum", x.L[0], b.L[0], sg.L[0]))
+	case "hexOK":
+		// encoding/hex.DecodeString accepts the text (a pure function of it)
+		x := env.eval(args[0])
+		ex.sc.fun("hex_ok", []string{sStr}, sBool)
+		return mathBool(app("hex_ok", x.L[0]))
 	case "strDec":
 		x := env.eval(args[0])
 		ex.sc.fun("str_dec", []string{sInt}, sStr)
